@@ -5,7 +5,7 @@
    usage:  c11_harness <casefile>      (results on stdout)
 
    casefile:
-     case <id> [exec] [load] [rebuild] [labelbase=N]   description lines ... [call lines]   end
+     case <id> [exec] [load] [rebuild] [merge] [postlink] [labelbase=N]   description lines ... [call lines]   end
      case <id> text <path> [load]              end        (module text scanned by MIR_scan_string)
      case <id> raw                             hex <rawhex>   end   (raw token stream, compressed
                                                                      with reduce_encode, then MIR_read)
@@ -799,23 +799,26 @@ typedef struct {
 } h_call_t;
 
 /* load (+ link and run the calls when exec_p); prints lines prefixed by tag */
+static int h_already_linked = 0; /* context A was loaded and linked before it was written */
+
 static void h_load_and_run (MIR_context_t ctx, const char *tag, int exec_p, h_call_t *calls,
-                            size_t ncalls) {
+                            size_t ncalls, int linked_p) {
   h_jmp_set = 1;
   if (setjmp (h_jmp)) {
     h_jmp_set = 0;
     printf ("%s loaderr %s\n", tag, h_errmsg);
     return;
   }
-  for (MIR_module_t m = DLIST_HEAD (MIR_module_t, *MIR_get_module_list (ctx)); m != NULL;
-       m = DLIST_NEXT (MIR_module_t, m))
-    MIR_load_module (ctx, m);
+  if (!linked_p)
+    for (MIR_module_t m = DLIST_HEAD (MIR_module_t, *MIR_get_module_list (ctx)); m != NULL;
+         m = DLIST_NEXT (MIR_module_t, m))
+      MIR_load_module (ctx, m);
   printf ("%s load ok\n", tag);
   if (!exec_p) {
     h_jmp_set = 0;
     return;
   }
-  MIR_link (ctx, MIR_set_interp_interface, h_resolver);
+  if (!linked_p) MIR_link (ctx, MIR_set_interp_interface, h_resolver);
   for (size_t c = 0; c < ncalls; c++) {
     MIR_item_t fi = h_find_func (ctx, calls[c].fname);
     MIR_val_t res[16];
@@ -967,8 +970,8 @@ static void h_roundtrip (MIR_context_t a, int exec_p, int load_p, h_call_t *call
     }
   }
   if (load_p || exec_p) {
-    h_load_and_run (a, "X1", exec_p, calls, ncalls);
-    if (read_ok) h_load_and_run (b, "X2", exec_p, calls, ncalls);
+    h_load_and_run (a, "X1", exec_p, calls, ncalls, h_already_linked);
+    if (read_ok) h_load_and_run (b, "X2", exec_p, calls, ncalls, 0);
   }
 fin:
   h_buf_free (&w1);
@@ -1028,9 +1031,45 @@ static MIR_context_t h_build_ctx (char **lines, size_t nlines, const char *text_
   return a;
 }
 
+/* history "separate contexts": every module of the description is built in a context of its own
+   (labels numbered from labelbase+1 in each), written with MIR_write, and all the binaries are read
+   into one fresh context, which is returned */
+static MIR_context_t h_build_merged (char **lines, size_t nlines, uint64_t labelbase) {
+  MIR_context_t volatile c = MIR_init ();
+  size_t volatile i = 0;
+  MIR_set_error_func (c, h_error_func);
+  while (i < nlines) {
+    size_t j = i, k;
+    h_buf_t w = {0};
+    MIR_context_t ai;
+    if (strncmp (lines[i], "module ", 7) != 0) {
+      i++;
+      continue;
+    }
+    for (k = i; k < nlines && strncmp (lines[k], "endmodule", 9) != 0; k++)
+      ;
+    if (k == nlines) h_die ("merge: module without endmodule");
+    ai = h_build_ctx (lines + j, k - j + 1, NULL, labelbase, 1);
+    if (ai == NULL) return NULL;
+    h_jmp_set = 1;
+    if (setjmp (h_jmp)) {
+      h_jmp_set = 0;
+      printf ("builderr merge: %s\n", h_errmsg);
+      return NULL;
+    }
+    h_write_file (ai, &w);
+    h_read_file (c, &w);
+    h_jmp_set = 0;
+    h_buf_free (&w);
+    MIR_finish (ai);
+    i = k + 1;
+  }
+  return c;
+}
+
 static void h_run_case (FILE *in, h_words_t *hdr) {
   const char *id = hdr->w[1];
-  int exec_p = 0, load_p = 0, raw_p = 0, rebuild_p = 0;
+  int exec_p = 0, load_p = 0, raw_p = 0, rebuild_p = 0, merge_p = 0, postlink_p = 0;
   const char *text_path = NULL;
   uint64_t labelbase = 0;
   h_call_t *calls = NULL;
@@ -1051,6 +1090,10 @@ static void h_run_case (FILE *in, h_words_t *hdr) {
       raw_p = 1;
     else if (strcmp (hdr->w[i], "rebuild") == 0)
       rebuild_p = 1;
+    else if (strcmp (hdr->w[i], "merge") == 0)
+      merge_p = 1;
+    else if (strcmp (hdr->w[i], "postlink") == 0)
+      postlink_p = 1;
     else if (strcmp (hdr->w[i], "text") == 0 && i + 1 < hdr->n)
       text_path = strdup (hdr->w[++i]);
     else if (strncmp (hdr->w[i], "labelbase=", 10) == 0)
@@ -1100,7 +1143,26 @@ static void h_run_case (FILE *in, h_words_t *hdr) {
     }
   }
   h_pat = rebuild_p ? 0x11 : 0;
-  a = h_build_ctx (lines, nlines, text_path, labelbase, 1);
+  a = merge_p ? h_build_merged (lines, nlines, labelbase)
+              : h_build_ctx (lines, nlines, text_path, labelbase, 1);
+  h_already_linked = 0;
+  if (a != NULL && postlink_p) {
+    /* history "written after link": MIR_link simplifies the functions and renumbers labels */
+    MIR_context_t volatile av = a;
+    h_jmp_set = 1;
+    if (setjmp (h_jmp)) {
+      h_jmp_set = 0;
+      printf ("builderr link: %s\n", h_errmsg);
+      a = NULL;
+    } else {
+      for (MIR_module_t m = DLIST_HEAD (MIR_module_t, *MIR_get_module_list (av)); m != NULL;
+           m = DLIST_NEXT (MIR_module_t, m))
+        MIR_load_module (av, m);
+      MIR_link (av, MIR_set_interp_interface, h_resolver);
+      h_jmp_set = 0;
+      h_already_linked = 1;
+    }
+  }
   if (a != NULL && raw_p) {
     /* reading direction only: raw bytes -> reduce_encode -> MIR_read */
     h_buf_t comp = {0};
